@@ -217,7 +217,7 @@ theorem unmarshalOne_safe (b : Bytes) : (unmarshalOne b).Safe := by
   exact safe_ok _
 
 /-- every accepted frame has at least 4 octets, and never more than the datagram holds:
-this is the progress argument of the datagram loop, including `Length = 0xFFFF` where the frame is empty -/
+this is the progress argument of the datagram loop -/
 theorem unmarshalOne_progress {b : Bytes} {p : Packet} {n : Nat} (e : unmarshalOne b = .ok (p, n)) :
     4 ≤ n ∧ n ≤ b.length := by
   unfold unmarshalOne at e
@@ -230,22 +230,7 @@ theorem unmarshalOne_progress {b : Bytes} {p : Packet} {n : Nat} (e : unmarshalO
     simp only [bind_ok] at e
     obtain ⟨q, hq, e⟩ := bind_eq_ok.mp e
     simp at e
-    have hf := Header.dec_ok_fields hh
-    refine ⟨?_, by omega⟩
-    -- if `Length + 1` wrapped to 0 the frame would be empty, and every decoder rejects an empty frame
-    by_cases hw : (h.length + 1) % 65536 = 0
-    · exfalso
-      rw [hw] at hq
-      simp at hq
-      -- the frame is `[]`; show `decKind k [] ≠ ok`
-      have : ∀ k, ∀ q, decKind k ([] : Bytes) ≠ .ok q := by
-        intro k q
-        cases k <;> simp [decKind, SenderReport.dec, ReceiverReport.dec, SourceDescription.dec, SourceDescription.decP,
-          Goodbye.dec, ApplicationDefined.dec, TransportLayerNack.dec, RapidResync.dec, Twcc.dec, Twcc.decP, Ccfb.dec, Ccfb.decP,
-          PictureLossIndication.dec, SliceLossIndication.dec, Remb.dec, FullIntraRequest.dec, XR.dec, XR.decP, rawDec, Header.dec,
-          Status.toOut, Out.status]
-      exact this _ _ hq
-    · omega
+    omega
 
 theorem unmarshalLoop_safe (gas : Nat) (b : Bytes) (hg : b.length < gas) : (unmarshalLoop gas b).Safe := by
   induction gas generalizing b with
